@@ -850,7 +850,7 @@ def gen_psd_input(rng, cplx):
     nr = np.random.RandomState(rng.randrange(2 ** 31))
     a = rnd(nr, n * n, cplx).reshape(n, n)
     q, _ = np.linalg.qr(a)
-    kind = rng.choice(["repeated", "repeated", "mixed", "psd", "negdef", "nonherm", "zero", "int", "small", "small"])
+    kind = rng.choice(["repeated", "repeated", "mixed", "psd", "negdef", "nonherm", "nonherm-psdpart", "zero", "int", "small", "small"])
     if kind == "small":      # eigenvalues just above / below / at the threshold 0
         w = np.array([rng.choice([0.05, 1e-3, -1e-3, -0.05, 0.0, 1.0, 0.3]) for _ in range(n)])
     elif kind == "repeated":
@@ -863,7 +863,12 @@ def gen_psd_input(rng, cplx):
         w = np.zeros(n)
     else:
         w = nr.standard_normal(n) * 2
+    if kind == "nonherm-psdpart":     # Hermitian part positive (semi)definite, plus a genuinely skew-Hermitian part
+        w = np.abs(nr.standard_normal(n)) + rng.choice([0.0, 0.2])
     m = (q * w) @ q.conj().T
+    if kind == "nonherm-psdpart":
+        k_ = rnd(nr, n * n, cplx).reshape(n, n)
+        m = m + (k_ - k_.conj().T) * 0.5 + (1j * np.eye(n) * 0.3 if cplx else 0)
     if kind == "nonherm":
         m = m + rnd(nr, n * n, cplx).reshape(n, n) * 0.5
     if kind == "int":
